@@ -35,12 +35,33 @@ Inductive skind := KExec | KQuery | KPrepare | KStmtExec.   (* driver entry poin
 
 Inductive call :=
 | CBegin
+| CBeginRetry                    (* a Begin that database/sql itself repeats on another connection
+                                    (the driver answered driver.ErrBadConn; at most twice) *)
 | CStmt (k : Z) (kd : skind)     (* k-th step of the body (0-based) *)
 | CCommit
 | CRollback.
 
-(* one call received by the driver: on whose behalf, on which connection, its answer *)
-Record logent := mkEnt { etid : nat; econn : Z; ecall : call; eout : outcome }.
+(* WHICH error value a failing driver call (or the body) produces: the values go-zero or
+   database/sql treat specially, each as the sentinel itself, wrapped with %w, or as a custom
+   type matching it through Is *)
+Inductive ekind :=
+| VGeneric       (* an error of the driver's own, identifiable by the harness *)
+| VBadConn       (* driver.ErrBadConn *)
+| VTxDone        (* sql.ErrTxDone *)
+| VConnDone      (* sql.ErrConnDone *)
+| VNoRows        (* sql.ErrNoRows *)
+| VCanceled      (* context.Canceled *)
+| VDeadline      (* context.DeadlineExceeded *)
+| VSkip          (* driver.ErrSkip *)
+| VUnavail       (* breaker.ErrServiceUnavailable *)
+| VEOF.          (* io.EOF *)
+Inductive emode := MBare | MWrap | MCustom.
+Record errval := mkVal { vkind : ekind; vmode : emode }.
+Definition vgen : errval := mkVal VGeneric MBare.
+
+(* one call received by the driver: on whose behalf, on which connection, its answer (and, when
+   it failed, with which error value) *)
+Record logent := mkEnt { etid : nat; econn : Z; ecall : call; eout : outcome; eval : errval }.
 
 Definition is_end (c : call) : bool := match c with CCommit | CRollback => true | _ => false end.
 Definition is_stmt (c : call) : bool := match c with CStmt _ _ => true | _ => false end.
@@ -50,10 +71,10 @@ Definition is_begin (c : call) : bool := match c with CBegin => true | _ => fals
 
 (* the driver's answer to one call: its outcome, and whether the caller's context becomes
    done WHILE the call is in flight *)
-Record reply := mkReply { rout : outcome; rcancel : bool }.
+Record reply := mkReply { rout : outcome; rcancel : bool; rval : errval }.
 
 Definition pop (orc : list reply) : reply * list reply :=
-  match orc with [] => (mkReply OOk false, []) | o :: r => (o, r) end.
+  match orc with [] => (mkReply OOk false vgen, []) | o :: r => (o, r) end.
 
 (* a scripted panic is honoured by Commit / Rollback only; elsewhere it is a failure *)
 Definition honoured (c : call) (o : outcome) : outcome :=
@@ -64,12 +85,31 @@ Definition honoured (c : call) (o : outcome) : outcome :=
 Definition cancels (c : call) (b : bool) : bool :=
   match c with CStmt _ KQuery => false | _ => b end.
 
+Definition is_badconn (v : errval) : bool := match vkind v with VBadConn => true | _ => false end.
+
+(* two error values are not scripted where database/sql reacts to them with driver calls of its
+   own: Stmt.Exec answering ErrBadConn (database/sql repeats the call), ExecContext / QueryContext
+   answering the bare driver.ErrSkip ("not implemented": database/sql prepares the statement) *)
+Definition hval (c : call) (v : errval) : errval :=
+  match c with
+  | CStmt _ KStmtExec => if is_badconn v then vgen else v
+  | CStmt _ KExec | CStmt _ KQuery =>
+    match vkind v, vmode v with VSkip, MBare => mkVal VSkip MWrap | _, _ => v end
+  | _ => v
+  end.
+
+(* the error value of a call that did not fail is immaterial *)
+Definition val_of (c : call) (o : outcome) (v : errval) : errval :=
+  match o with OFail => hval c v | _ => vgen end.
+
 (* one driver call made for transaction [t] on connection [cn]:
-   outcome, context cancelled meanwhile, log entry, rest of the script *)
+   outcome, its error value, context cancelled meanwhile, log entry, rest of the script *)
 Definition drv (t : nat) (cn : Z) (c : call) (orc : list reply)
-  : outcome * bool * list logent * list reply :=
+  : outcome * errval * bool * list logent * list reply :=
   let '(r, orc') := pop orc in
-  let o' := honoured c (rout r) in (o', cancels c (rcancel r), [mkEnt t cn c o'], orc').
+  let o' := honoured c (rout r) in
+  let v' := val_of c o' (rval r) in
+  (o', v', cancels c (rcancel r), [mkEnt t cn c o' v'], orc').
 
 (* ---- the body ---------------------------------------------------------- *)
 Inductive meth := MExec | MQuery | MPrep.   (* Exec* | QueryRow*/QueryRows* | Prepare* + stmt.Exec* *)
@@ -89,17 +129,17 @@ Inductive onfail :=
 Record step := mkStep { sact : action; sonfail : onfail }.
 
 (* what the body does after its last step *)
-Inductive fin := RNil | RErr | RPanic | RGoexit.
+Inductive fin := RNil | RErr (v : errval) | RPanic | RGoexit.
 
 (* which error value the body returned *)
 Inductive berr :=
-| BUser             (* an error of its own *)
-| BStmt (k : Z)     (* the driver's error of its k-th step *)
+| BUser (v : errval)        (* an error of its own *)
+| BStmt (k : Z) (v : errval) (* the driver's error of its k-th step *)
 | BCtx (k : Z)      (* context.Canceled from the k-th step *)
 | BTxDone (k : Z)   (* sql.ErrTxDone from the k-th step *)
 | BNest (k : Z)     (* errCantNestTx *)
-| BSelfC (k : Z)    (* the driver's Commit error, from its own Commit *)
-| BSelfR (k : Z).
+| BSelfC (k : Z) (v : errval)   (* the driver's Commit error, from its own Commit *)
+| BSelfR (k : Z) (v : errval).
 
 (* how the call fn(ctx, tx) ended *)
 Inductive bout := BNil | BErr (b : berr) | BPanic | BGoexit.
@@ -111,13 +151,14 @@ Record script := mkScript
     sbrk : bool;          (* the breaker lets the call through (observed) *)
     sopen : bool;         (* connProv succeeds *)
     sconn : Z;            (* the connection that serves Begin (observed) *)
+    sretry : list Z;      (* the connections of the Begins database/sql gave up before (observed) *)
     ssteps : list step;
     sfin : fin;
     sacc : Z }.           (* number of WithAcceptable options of the SqlConn *)
 
 (* ---- errors returned to the caller -------------------------------------- *)
 Inductive ecause :=
-| DrvCommit | DrvRollback     (* the driver's error *)
+| DrvCommit (v : errval) | DrvRollback (v : errval)     (* the driver's error *)
 | TxDone.                     (* sql.ErrTxDone: the transaction had already ended *)
 
 Inductive err :=
@@ -125,7 +166,7 @@ Inductive err :=
 | EUnavailable                 (* breaker.ErrServiceUnavailable *)
 | ECanceled                    (* ctx.Err() of an already cancelled context *)
 | ENoConn                      (* connProv's error *)
-| EBegin                       (* the driver's Begin error *)
+| EBegin (v : errval)          (* the driver's Begin error *)
 | EBody (b : berr)             (* exactly the error value the body returned *)
 | ECommit (c : ecause)         (* what tx.Commit() returned *)
 | ERecover (r : option ecause) (* fmt.Errorf("recover from %#v", p) [", rollback failed: %w", e] *)
@@ -151,25 +192,25 @@ Inductive tstate :=
 (* ---- one step of the body ------------------------------------------------- *)
 Inductive sres := SNone | SErr (b : berr) | SPanic.
 
-Definition res_of (k : Z) (o : outcome) : sres :=
-  match o with OOk => SNone | _ => SErr (BStmt k) end.
+Definition res_of (k : Z) (o : outcome) (v : errval) : sres :=
+  match o with OOk => SNone | _ => SErr (BStmt k v) end.
 
 (* [sees]: the statement is issued with the caller's context (TransactCtx and a ...Ctx method);
    result, driver calls, rest of the script, context cancelled meanwhile *)
 Definition do_stmt (t : nat) (cn : Z) (k : Z) (m : meth) (sees : bool) (orc : list reply)
   : sres * list logent * list reply * bool :=
   match m with
-  | MExec => let '(o, c, l, orc1) := drv t cn (CStmt k KExec) orc in (res_of k o, l, orc1, c)
-  | MQuery => let '(o, c, l, orc1) := drv t cn (CStmt k KQuery) orc in (res_of k o, l, orc1, c)
+  | MExec => let '(o, v, c, l, orc1) := drv t cn (CStmt k KExec) orc in (res_of k o v, l, orc1, c)
+  | MQuery => let '(o, v, c, l, orc1) := drv t cn (CStmt k KQuery) orc in (res_of k o v, l, orc1, c)
   | MPrep =>
-    let '(o, c, l, orc1) := drv t cn (CStmt k KPrepare) orc in
+    let '(o, v, c, l, orc1) := drv t cn (CStmt k KPrepare) orc in
     match o with
     | OOk =>
       (* PrepareContext came back; Stmt.ExecContext with a context that is done by now is refused *)
       if sees && c then (SErr (BCtx k), l, orc1, c)
-      else let '(o2, c2, l2, orc2) := drv t cn (CStmt k KStmtExec) orc1 in
-           (res_of k o2, l ++ l2, orc2, c || c2)
-    | _ => (SErr (BStmt k), l, orc1, c)
+      else let '(o2, v2, c2, l2, orc2) := drv t cn (CStmt k KStmtExec) orc1 in
+           (res_of k o2 v2, l ++ l2, orc2, c || c2)
+    | _ => (SErr (BStmt k v), l, orc1, c)
     end
   end.
 
@@ -180,10 +221,10 @@ Definition do_selfend (t : nat) (cn : Z) (k : Z) (commit : bool) (canc done : bo
   (orc : list reply) : aout :=
   if done then (SErr (BTxDone k), [], orc, canc, true, false)
   else
-    let '(o, c, l, orc1) := drv t cn (if commit then CCommit else CRollback) orc in
+    let '(o, v, c, l, orc1) := drv t cn (if commit then CCommit else CRollback) orc in
     match o with
     | OOk => (SNone, l, orc1, canc || c, true, false)
-    | OFail => (SErr (if commit then BSelfC k else BSelfR k), l, orc1, canc || c, true, false)
+    | OFail => (SErr (if commit then BSelfC k v else BSelfR k v), l, orc1, canc || c, true, false)
     | OPanic => (SPanic, l, orc1, canc || c, true, true)
     end.
 
@@ -211,7 +252,7 @@ Definition react (r : sres) (f : onfail) : option bout :=
   end.
 
 Definition fin_out (f : fin) : bout :=
-  match f with RNil => BNil | RErr => BErr BUser | RPanic => BPanic | RGoexit => BGoexit end.
+  match f with RNil => BNil | RErr v => BErr (BUser v) | RPanic => BPanic | RGoexit => BGoexit end.
 
 (* ---- the deferred function of transactOnConn ------------------------------
      defer func() {
@@ -240,10 +281,10 @@ Definition try_end (t : nat) (cn : Z) (c : call) (done : bool) (orc : list reply
   : endres * list logent * list reply :=
   if done then (XErr TxDone, [], orc)
   else
-    let '(o, _, l, orc1) := drv t cn c orc in
+    let '(o, v, _, l, orc1) := drv t cn c orc in
     (match o with
      | OOk => XOk
-     | OFail => XErr (if is_commit c then DrvCommit else DrvRollback)
+     | OFail => XErr (if is_commit c then DrvCommit v else DrvRollback v)
      | OPanic => XPanic
      end, l, orc1).
 
@@ -278,8 +319,29 @@ Definition finish_with (rf : bout -> endres -> ret) (g : bool) (t : nat) (sc : s
      transact: conn, err := db.connProv(); transactOnConn: tx, err = b(conn)
    TBody, steps left: one step and the body's reaction
    TBody, no step left: the end of the body, the deferred function, the return *)
-Definition tstep_with (rf : bout -> endres -> ret) (g : bool) (t : nat) (sc : script) (st : tstate)
-  (orc : list reply) : qout :=
+(* db.Begin(): database/sql itself repeats a Begin that the driver answered with (an error
+   matching) driver.ErrBadConn, on another connection, twice at most; the third answer stands.
+   [rc] = the connections of the attempts it gave up (observed). *)
+Definition retried (r : reply) : bool :=
+  match honoured CBegin (rout r) with OFail => is_badconn (rval r) | _ => false end.
+
+Fixpoint begin_all (fuel : nat) (t : nat) (rc : list Z) (cn : Z) (orc : list reply)
+  : outcome * errval * bool * list logent * list reply :=
+  match fuel with
+  | O => drv t cn CBegin orc
+  | S fuel' =>
+    if retried (fst (pop orc)) then
+      let '(o, v, c, l, orc2) := begin_all fuel' t (tl rc) cn (snd (pop orc)) in
+      (o, v, rcancel (fst (pop orc)) || c,
+       mkEnt t (hd cn rc) CBeginRetry OFail (rval (fst (pop orc))) :: l, orc2)
+    else drv t cn CBegin orc
+  end.
+
+Definition max_begin_retries : nat := 2.
+
+(* [F] = what happens when the body has ended ([finish_with rf g] for the code as it is) *)
+Definition tstep_fin (F : nat -> script -> bool -> bout -> list reply -> qout) (t : nat) (sc : script)
+  (st : tstate) (orc : list reply) : qout :=
   match st with
   | TDone _ => (st, [], orc, false)
   | TIdle =>
@@ -287,21 +349,24 @@ Definition tstep_with (rf : bout -> endres -> ret) (g : bool) (t : nat) (sc : sc
     else if negb (sbrk sc) then (TDone (mkRes 0 None (RetErr EUnavailable) false), [], orc, false)
     else if negb (sopen sc) then (TDone (mkRes 0 None (RetErr ENoConn) false), [], orc, false)
     else
-      let '(o, c, l, orc1) := drv t (sconn sc) CBegin orc in
+      let '(o, v, c, l, orc1) := begin_all max_begin_retries t (sretry sc) (sconn sc) orc in
       match o with
       | OOk => (TBody 0 (ssteps sc) c false, l, orc1, false)   (* db.Begin() takes no context *)
-      | _ => (TDone (mkRes 0 None (RetErr EBegin) false), l, orc1, false)
+      | _ => (TDone (mkRes 0 None (RetErr (EBegin v)) false), l, orc1, false)
       end
-  | TBody k [] canc done => finish_with rf g t sc done (fin_out (sfin sc)) orc
+  | TBody k [] canc done => F t sc done (fin_out (sfin sc)) orc
   | TBody k (s :: rest) canc done =>
     let '(r, l, orc1, canc1, done1, leak1) := do_action t sc k (sact s) canc done orc in
     match react r (sonfail s) with
     | None => (TBody (k + 1) rest canc1 done1, l, orc1, leak1)
     | Some o =>
-      let '(st', l2, orc2, leak2) := finish_with rf g t sc done1 o orc1 in
+      let '(st', l2, orc2, leak2) := F t sc done1 o orc1 in
       (st', l ++ l2, orc2, leak1 || leak2)
     end
   end.
+
+Definition tstep_with (rf : bout -> endres -> ret) (g : bool) : nat -> script -> tstate -> list reply -> qout :=
+  tstep_fin (finish_with rf g).
 
 (* ---- the world: all transactions, the driver's log, the rest of its script ---- *)
 Record thread := mkThread
@@ -362,9 +427,13 @@ Definition wstep := wstep_with ret_of.
 Definition run := run_with ret_of.
 Definition exec := exec_with ret_of.
 
-(* the driver calls made on behalf of transaction [t] *)
-Definition proj (t : nat) (l : list logent) : list logent :=
+(* every driver call made while transaction [t] was running *)
+Definition calls_of (t : nat) (l : list logent) : list logent :=
   filter (fun e => Nat.eqb (etid e) t) l.
+(* the driver calls of transaction [t] itself: without the Begins that database/sql gave up *)
+Definition is_retry (c : call) : bool := match c with CBeginRetry => true | _ => false end.
+Definition proj (t : nat) (l : list logent) : list logent :=
+  filter (fun e => Nat.eqb (etid e) t && negb (is_retry (ecall e))) l.
 
 (* ---- readable predicates ----------------------------------------------------- *)
 (* the call gets past the context check, the breaker and the connection provider *)
@@ -388,6 +457,6 @@ Definition self_free (sc : script) : bool := forallb (fun s => negb (is_self (sa
 
 Definition is_nil_ret (r : ret) : bool := match r with RetErr ENil => true | _ => false end.
 Definition reports_commit_failure (r : ret) : bool :=
-  match r with RetErr (ECommit DrvCommit) => true | _ => false end.
+  match r with RetErr (ECommit (DrvCommit _)) => true | _ => false end.
 Definition reports_rollback_failure (r : ret) : bool :=
-  match r with RetErr (ERecover (Some DrvRollback)) | RetErr (ETxFailed _ DrvRollback) => true | _ => false end.
+  match r with RetErr (ERecover (Some (DrvRollback _))) | RetErr (ETxFailed _ (DrvRollback _)) => true | _ => false end.
